@@ -3,7 +3,9 @@
 //! (`run_instantiation_pass`), inlined (`inline_operations`) and evaluated with the simple evaluator.
 //! Streams: X exhaustive operand pairs for small widths (through a broadcast `[N,1,w] × [N,w]`),
 //! R random + boundary operands for every width 1..128 with random broadcastable shapes,
-//! M structural fingerprint (Multiply nodes per width), E malformed (rejections).
+//! M structural fingerprint (Multiply nodes per width), E malformed (rejections),
+//! A whole arrays (random broadcastable shapes of rank 1..4) against the array-level model
+//! (`CCV.Model.CompareArr`: expand_to_same_dims / pull_out_bits / broadcast / normalize_cmp / Mux).
 use crate::util::*;
 use ciphercore_base::custom_ops::{run_instantiation_pass, CustomOperation};
 use ciphercore_base::data_types::*;
@@ -371,13 +373,165 @@ fn gen_dims(rng: &mut Rng) -> (Vec<u64>, Vec<u64>) {
     (a, b)
 }
 
+fn shape_str(s: &[u64]) -> String {
+    if s.is_empty() {
+        "_".to_owned()
+    } else {
+        s.iter().map(|d| d.to_string()).collect::<Vec<_>>().join(",")
+    }
+}
+
+fn bits_str(b: &[u8]) -> String {
+    b.iter().map(|x| if *x == 0 { '0' } else { '1' }).collect()
+}
+
+/// leading dims of two operands for stream A: ranks 0..3 (array ranks 1..4), dims 1..4, size-1 axes,
+/// a rank-1 operand (no leading dims) with probability ~1/4 on either side
+fn gen_dims_a(rng: &mut Rng) -> (Vec<u64>, Vec<u64>) {
+    let r = if rng.chance(1, 12) { 0 } else { 1 + rng.below(3) as usize };
+    let full: Vec<u64> = (0..r).map(|_| if rng.chance(1, 5) { 1 } else { 1 + rng.below(4) }).collect();
+    let mk = |rng: &mut Rng| -> Vec<u64> {
+        let drop = match rng.below(8) {
+            0 | 1 => r,
+            2 | 3 => rng.below(r as u64 + 1) as usize,
+            _ => 0,
+        };
+        full[drop..].iter().map(|d| if rng.chance(1, 4) { 1 } else { *d }).collect()
+    };
+    let a = mk(rng);
+    let b = mk(rng);
+    (a, b)
+}
+
+/// stream A, one case: whole operand arrays to the array-level model; the implementation's answer is
+/// the type and value of the output of the instantiated graph (and of the inlined one: must agree)
+fn run_array_case(run: &mut Run, kind: Kind, signed: bool, sa: &[u64], sb: &[u64], xa: &[u8], xb: &[u8], expect_ok: bool) {
+    let request = format!(
+        "arr {} {} {} {} {} {}",
+        kind.name(),
+        signed as u8,
+        shape_str(sa),
+        bits_str(xa),
+        shape_str(sb),
+        bits_str(xb)
+    );
+    let descr = format!("A {} {} {:?}x{:?}", kind.name(), signed, sa, sb);
+    let ta = array_type(sa.to_vec(), BIT);
+    let tb = array_type(sb.to_vec(), BIT);
+    let built = match catch(|| build(kind, signed, ta, tb)) {
+        Err(p) => {
+            run.oracle_fail("C16:panic:build", format!("{}: {}", descr, p));
+            return;
+        }
+        Ok(Err(e)) => {
+            run.case(request, "ERR".to_owned(), false);
+            run.oracle_case(&descr, false);
+            run.count("A:rejected");
+            if expect_ok {
+                run.oracle_fail("C16:reject:valid-input", format!("{} rejected: {}", descr, trunc(&format!("{}", e), 200)));
+            }
+            return;
+        }
+        Ok(Ok(b)) => b,
+    };
+    if !expect_ok {
+        run.oracle_fail("C16:accepts:malformed", descr.clone());
+        return;
+    }
+    let eval = |g: Graph| -> Result<(Vec<u64>, Vec<u8>)> {
+        let t = g.get_output_node()?.get_type()?;
+        let v_a = Value::from_flattened_array(xa, BIT)?;
+        let v_b = Value::from_flattened_array(xb, BIT)?;
+        let out = random_evaluate(g, vec![v_a, v_b])?;
+        if t.is_scalar() {
+            Ok((vec![], vec![out.to_u8(BIT)?]))
+        } else {
+            let bits = out.to_flattened_array_u64(t.clone())?.into_iter().map(|x| x as u8).collect();
+            Ok((t.get_shape(), bits))
+        }
+    };
+    let (rshape, rbits) = match catch(|| eval(built.instantiated.clone())) {
+        Ok(Ok(r)) => r,
+        Ok(Err(e)) => {
+            run.oracle_fail("C16:error:evaluate", format!("{}: {}", descr, trunc(&format!("{}", e), 200)));
+            return;
+        }
+        Err(p) => {
+            run.oracle_fail("C16:panic:evaluate", format!("{}: {}", descr, p));
+            return;
+        }
+    };
+    let answer = format!("{} {}", shape_str(&rshape), bits_str(&rbits));
+    run.case(request.clone(), answer, true);
+    run.oracle_case(&descr, true);
+    run.count(&format!("A:op:{}:{}", kind.name(), if signed { "signed" } else { "unsigned" }));
+    run.count(&format!("A:rank:{}x{}", sa.len(), sb.len()));
+    if sa.len() != sb.len() {
+        run.count("A:rank-differs");
+    }
+    if sa.len() == 1 || sb.len() == 1 {
+        run.count("A:rank1-operand");
+    }
+    let w = *sa.last().unwrap() as usize;
+    let (da, db) = (&sa[..sa.len() - 1], &sb[..sb.len() - 1]);
+    if da != db {
+        run.count("A:shapes-differ");
+    }
+    // the property's oracle: shape = numpy broadcast of the leading dims (+ [w] for min/max);
+    // element = native comparison of the two bit strings at the broadcast positions
+    let res = bshape(da, db);
+    let mut want_shape = res.clone();
+    if !kind.is_cmp() {
+        want_shape.push(w as u64);
+    }
+    if rshape != want_shape {
+        run.oracle_fail("C16:array:shape", format!("{} gives shape {:?} want {:?}", request, rshape, want_shape));
+        return;
+    }
+    let val = |bits: &[u8], k: usize| -> u128 { (0..w).fold(0u128, |acc, i| acc | ((bits[k * w + i] as u128) << i)) };
+    let n: u64 = res.iter().product();
+    let mut idx = vec![0u64; res.len()];
+    for k in 0..n as usize {
+        let a = val(xa, src_index(&idx, da));
+        let b = val(xb, src_index(&idx, db));
+        let want = oracle(kind, signed, w as u32, a, b);
+        let got = if kind.is_cmp() { rbits[k] as u128 } else { val(&rbits, k) };
+        if got != want {
+            run.oracle_fail(
+                &format!("C16:array:wrong:{}:{}", kind.name(), if signed { "signed" } else { "unsigned" }),
+                format!("{} element {:?} (a={} b={}) gives {} want {}", request, idx, a, b, got, want),
+            );
+            break;
+        }
+        for j in (0..res.len()).rev() {
+            idx[j] += 1;
+            if idx[j] < res[j] {
+                break;
+            }
+            idx[j] = 0;
+        }
+    }
+    // the inlined graph must give the same value
+    match catch(|| eval(built.inlined.clone())) {
+        Ok(Ok(r2)) => {
+            if r2 != (rshape, rbits) {
+                run.oracle_fail("C16:inline-differs", descr);
+            }
+        }
+        _ => run.oracle_fail("C16:error:evaluate-inlined", descr),
+    }
+}
+
 pub fn corr(run: &mut Run) {
     run.rule = "stream X: every operand pair of widths 1..5 (quick) / 1..7 (thorough) for the 14 operation configurations \
                 (Equal, NotEqual; LessThan, GreaterThan, LessThanEqualTo, GreaterThanEqualTo, Min, Max × unsigned/signed), \
                 evaluated in one broadcast [2^w,1,w]×[2^w,w] (or transposed) graph; stream R: every width 1..128 × 14 \
                 configurations × random broadcastable shapes (ranks 1..4, dims 1..3), operands boundary-biased and drawn from a \
                 small pool so that equal / adjacent / sign-boundary pairs are frequent; stream M: number of Multiply nodes of \
-                the instantiated+inlined graph per width and operation; stream E: rejected inputs (signed 1-bit, unequal \
+                the instantiated+inlined graph per width and operation; stream A: whole operand arrays (random bits, strings of b \
+                often copies of strings of a with one bit changed) of random broadcastable shapes (array rank 1..4, dims 1..4, \
+                size-1 axes, rank-1 operands, 1/12 malformed: not broadcastable / unequal widths / signed 1-bit) sent to the \
+                array-level model, answer = type and value of the output of the instantiated graph; stream E: rejected inputs (signed 1-bit, unequal \
                 widths, non-bit arrays, scalars). Graphs are built with the real custom operations, instantiated, inlined and \
                 run by the simple evaluator. Non-trivial: a real operand pair was compared (all of X and R); distinct by request text."
         .to_owned();
@@ -426,6 +580,71 @@ pub fn corr(run: &mut Run) {
                 run_batch(run, "R", kind, signed, w, &da, &db, &va, &vb, rng.chance(1, 8));
             }
         }
+    }
+
+    // ---------------------------------------------------------------- A: whole arrays
+    let mut rng = run.rng("A");
+    let widths: [u64; 14] = [1, 2, 2, 3, 3, 4, 5, 7, 8, 9, 16, 31, 33, 64];
+    let n_a = run.tier.scale(700, 6000);
+    for i in 0..n_a {
+        let &(kind, signed) = rng.pick(&cfgs);
+        let mut w = *rng.pick(&widths);
+        if signed && w < 2 {
+            w = 2;
+        }
+        let (da, db) = gen_dims_a(&mut rng);
+        let mut sa = da.clone();
+        sa.push(w);
+        let mut sb = db.clone();
+        sb.push(w);
+        let mut expect_ok = true;
+        if i % 12 == 11 {
+            // malformed: not broadcastable / unequal widths / signed 1-bit strings
+            expect_ok = false;
+            match rng.below(3) {
+                0 => {
+                    sa = vec![2, w];
+                    sb = vec![3, w];
+                    if rng.chance(1, 2) {
+                        sa.insert(0, 2);
+                    }
+                }
+                1 => {
+                    let l = sb.len();
+                    sb[l - 1] = w + 1;
+                }
+                _ => {
+                    if signed {
+                        let (la, lb) = (sa.len(), sb.len());
+                        sa[la - 1] = 1;
+                        sb[lb - 1] = 1;
+                    } else {
+                        sa = vec![4, 1, w];
+                        sb = vec![3, 2, w];
+                    }
+                }
+            }
+        }
+        let na: u64 = sa.iter().product();
+        let nb: u64 = sb.iter().product();
+        // operands: random bits; with probability 1/2 the strings of b are copies of strings of a
+        // with at most one bit changed (equal / adjacent values are frequent)
+        let wa = *sa.last().unwrap() as usize;
+        let xa: Vec<u8> = (0..na).map(|_| rng.below(2) as u8).collect();
+        let mut xb: Vec<u8> = (0..nb).map(|_| rng.below(2) as u8).collect();
+        if rng.chance(1, 2) && *sb.last().unwrap() as usize == wa {
+            for k in 0..(nb as usize / wa) {
+                let src = rng.below(na / wa as u64) as usize;
+                for j in 0..wa {
+                    xb[k * wa + j] = xa[src * wa + j];
+                }
+                if rng.chance(1, 2) {
+                    let j = rng.below(wa as u64) as usize;
+                    xb[k * wa + j] ^= 1;
+                }
+            }
+        }
+        run_array_case(run, kind, signed, &sa, &sb, &xa, &xb, expect_ok);
     }
 
     // ---------------------------------------------------------------- M: structural fingerprint
